@@ -15,7 +15,7 @@ RULE = ('bursts of 3-40 unique-id publications with priorities from a small set 
         'call started; and the arrival order in every subscriber queue must equal the get order. distinct_nontrivial = distinct (burst '
         'size, publishers, multiset of priorities, max simultaneous equal-priority backlog) tuples with >= 3 equal-priority items waiting')
 CASES = {'quick': 2000, 'thorough': 100000}
-BUDGET = {'quick': 50, 'thorough': 300}
+BUDGET = {'quick': 150, 'thorough': 300}
 REQUIRE = {'bursts': 800, 'gets_checked': 10000, 'bursts_with_3_equal_waiting': 300, 'bursts_multi_publisher': 200, 'bursts_with_backlog_while_stopped': 300, 'bursts_with_zero_or_negative_priority': 200}
 ASSUME = ['the fabric is running; one delivery thread per kind']
 ANNOUNCE_CASES = True
